@@ -68,6 +68,10 @@ def map_failures(res, gen, unitcfg):
     midx = module_index(gen.text)
     for d in res['diags']:
         status, kind = vrun.classify(d['message'])
+        if status == 'unknown':
+            # verification ran to completion (there are results), so an error diagnostic with a span is a
+            # failed obligation whose wording is not in the table; without results it is a front-end error
+            status, kind = (('failed', 'other-proof') if res.get('have_results') and d['spans'] else ('undecided', 'front-end'))
         labels = list(d.get('labels', []))
         prim = [s for s in d['spans'] if s['is_primary']] or d['spans']
         line = prim[0]['line_start'] if prim else 0
@@ -100,6 +104,9 @@ def map_failures(res, gen, unitcfg):
                     props.update(c['own']); props.update(c['dep'])
                     clause_txt = c['text']
             f['obligation'] = labels[0]
+            c0 = gen.clauses.get(labels[0])
+            if c0 and fn is not None and kind != 'precondition' and fn.path != c0['fn']:
+                f['obligation'] = '%s@%s' % (labels[0], fn.path)
         elif fn is None:
             # failure inside the prelude / module-level ghost code: infrastructure, not the code under test
             undec.append({'message': d['message'], 'fn': None, 'module': mod, 'kind': 'prelude-proof', 'line': line, 'rendered': d['rendered']})
@@ -127,11 +134,21 @@ def map_failures(res, gen, unitcfg):
         fails.append(f)
     return fails, undec
 
+def trait_impl_fns(gen, clause_fn):
+    """clause_fn 'Trait::method' -> FnRecords of 'Trait for X::method' (every impl must meet the trait clause)"""
+    if '::' not in clause_fn: return []
+    tr, _, meth = clause_fn.rpartition('::')
+    if ' for ' in tr: return []
+    return [f for f in gen.fns if f.path.startswith(tr + ' for ') and f.path.endswith('::' + meth)]
+
 def modules_for(prop, gen, unitcfg, pcfg):
     mods = set(pcfg.get('modules', []))
     for l, c in gen.clauses.items():
         if prop in c['own'] or prop in c['dep']:
             mods.add(c['module'])
+            if prop in c['own']:
+                for f in trait_impl_fns(gen, c['fn']):
+                    mods.add(f.module)
     for m in gen.modules:
         if prop in safety_props(unitcfg, m) or prop in termination_props(unitcfg, m):
             mods.add(m)
@@ -142,6 +159,9 @@ def obligations_for(prop, gen, unitcfg, mods):
     for l, c in gen.clauses.items():
         if c['module'] in mods and (prop in c['own'] or prop in c['dep']):
             obs.append(l)
+            for f in trait_impl_fns(gen, c['fn']):
+                if f.module in mods and f.has_body:
+                    obs.append('%s@%s' % (l, f.path))
     for f in gen.fns:
         if f.module in mods and f.has_body and not f.external:
             if prop in safety_props(unitcfg, f.module):
@@ -254,7 +274,7 @@ def main():
     # ---------------- evidence
     import collections
     samples = []
-    for l in [o for o in obs if not o.startswith(('safety:', 'termination:', 'proof:'))][:6]:
+    for l in [o for o in obs if not o.startswith(('safety:', 'termination:', 'proof:')) and '@' not in o][:6]:
         c = gen.clauses.get(l)
         if c: samples.append({'obligation': l, 'function': c['fn'], 'kind': c['kind'], 'clause': c['text'], 'own': c['own'], 'dep': c['dep']})
     for o in [o for o in obs if o.startswith('safety:')][:2]:
